@@ -61,10 +61,13 @@ func (e *Enc) latePreamble() string {
 				used = true
 			}
 		}
+		if e.pkg != nil && pkgShort(e.pkg) == ax.Pkg && e.decls.seen["fun:dyn"] {
+			used = true
+		}
 		if !used {
 			continue
 		}
-		sc := &SCtx{e: e, st: e.pre, old: nil, vars: map[string]Val{}, vtypes: map[string]types.Type{}, pkg: e.pkg}
+		sc := &SCtx{e: e, st: e.pre, old: nil, vars: map[string]Val{}, vtypes: map[string]types.Type{}, pkg: e.P.ByName[ax.Pkg]}
 		t, err := sc.evalBool(ax.Expr)
 		if err != nil {
 			e.warn("axiom %s: %v", ax.Label, err)
@@ -92,13 +95,30 @@ func (e *Enc) latePreamble() string {
 	return b.String()
 }
 
+// finalize computes the parts of the query shared by all obligations of this encoding (once, before solving).
+func (e *Enc) finalize() {
+	e.finalOnce.Do(func() {
+		// evaluating axioms may add declarations and type ids; iterate to a fixpoint (two rounds suffice)
+		e.latePreamble()
+		e.lateText = e.latePreamble()
+		e.declText = e.decls.text()
+	})
+}
+
 func (e *Enc) smtFor(o *Obl) string {
 	var b strings.Builder
 	b.WriteString("(set-option :produce-models true)\n(set-logic ALL)\n")
-	late := e.latePreamble()
-	b.WriteString(e.decls.text())
-	b.WriteString(late)
-	for _, l := range e.body[:o.Prefix] {
+	e.finalize()
+	b.WriteString(e.declText)
+	b.WriteString(e.lateText)
+	var anc map[int]bool
+	if o.Blk >= 0 && e.anc != nil {
+		anc = e.anc[o.Blk]
+	}
+	for i, l := range e.body[:o.Prefix] {
+		if anc != nil && e.bodyBlk[i] >= 0 && !anc[e.bodyBlk[i]] {
+			continue
+		}
 		b.WriteString(l)
 		b.WriteString("\n")
 	}
@@ -258,29 +278,60 @@ func workerMain() {
 			out.Encode(&resp)
 			continue
 		}
-		if st, o, secs, ok := persistentZ3(req.SMT, req.Timeout); ok {
-			resp.Secs += secs
-			if st == "unsat" || st == "sat" {
-				resp.Status, resp.Solver, resp.Out = st, solvers[0].name, o
-				out.Encode(&resp)
-				continue
-			}
-			resp.Raw += "[" + solvers[0].name + "] " + firstLines(o, 3) + "\n"
+		// escalating race: short attempts on each solver first (unstable queries are often easy for one of them)
+		type stage struct{ solver, t int }
+		short := 3
+		if req.Timeout < short {
+			short = req.Timeout
 		}
-		for si, sp := range solvers {
-			if si == 0 && pz != nil {
-				continue
+		stages := []stage{{0, short}, {1, short}, {2, short}}
+		if req.Timeout > short {
+			stages = append(stages, stage{0, req.Timeout}, stage{1, req.Timeout})
+		}
+		for _, sg := range stages {
+			var st, o string
+			var secs float64
+			if sg.solver == 0 {
+				var ok bool
+				st, o, secs, ok = persistentZ3(req.SMT, sg.t)
+				if !ok {
+					st, o, secs = runSolver(solvers[0], req.SMT, sg.t)
+				}
+			} else {
+				st, o, secs = runSolver(solvers[sg.solver], req.SMT, sg.t)
 			}
-			st, o, secs := runSolver(sp, req.SMT, req.Timeout)
 			resp.Secs += secs
 			if st == "unsat" || st == "sat" {
-				resp.Status, resp.Solver, resp.Out = st, sp.name, o
+				resp.Status, resp.Solver, resp.Out = st, solvers[sg.solver].name, o
 				break
 			}
-			resp.Raw += "[" + sp.name + "] " + firstLines(o, 3) + "\n"
+			resp.Raw += "[" + solvers[sg.solver].name + fmt.Sprintf(" %ds] ", sg.t) + firstLines(o, 2) + "\n"
 		}
 		out.Encode(&resp)
 	}
+}
+
+func (w *worker) ask(req *workerReq) workerResp {
+	var resp workerResp
+	resp.Status = "unknown"
+	if err := w.in.Encode(req); err != nil {
+		resp.Raw = "worker write: " + err.Error()
+		return resp
+	}
+	line, err := w.out.ReadBytes('\n')
+	if err != nil {
+		resp.Raw = "worker read: " + err.Error()
+		return resp
+	}
+	json.Unmarshal(line, &resp)
+	return resp
+}
+
+// smtWith: the query of o with extra assertions inserted before the negated goal.
+func (e *Enc) smtWith(o *Obl, extra []string) string {
+	o2 := *o
+	o2.Extra = append(append([]string(nil), o.Extra...), extra...)
+	return e.smtFor(&o2)
 }
 
 func (e *Enc) solveVia(w *worker, o *Obl, timeout int) *Verdict {
@@ -291,26 +342,68 @@ func (e *Enc) solveVia(w *worker, o *Obl, timeout int) *Verdict {
 	}
 	smt := e.smtFor(o)
 	v.SMT = smt
-	if err := w.in.Encode(&workerReq{SMT: smt, Timeout: timeout}); err != nil {
-		v.Status, v.Raw = "undecided", "worker write: "+err.Error()
-		return v
+	if o.Budget > 0 && o.Budget < timeout {
+		timeout = o.Budget
 	}
-	line, err := w.out.ReadBytes('\n')
-	if err != nil {
-		v.Status, v.Raw = "undecided", "worker read: "+err.Error()
-		return v
+	first := timeout
+	if len(o.Splits) > 1 && timeout > 4 {
+		first = 4
 	}
-	var resp workerResp
-	json.Unmarshal(line, &resp)
+	resp := w.ask(&workerReq{SMT: smt, Timeout: first})
 	v.Time, v.Solver = resp.Secs, resp.Solver
 	switch resp.Status {
 	case "unsat":
 		v.Status = "discharged"
+		return v
 	case "sat":
 		v.Status, v.Model, v.Raw = "refuted", resp.Out, resp.Out
-	default:
-		v.Status, v.Raw = "undecided", resp.Raw
+		return v
 	}
+	v.Raw = resp.Raw
+	if len(o.Splits) > 1 {
+		// case split on the incoming edges of the last control-flow merge (sound: a cover query checks that the cases are exhaustive)
+		all := true
+		var cases []string
+		for _, sp := range o.Splits {
+			cases = append(cases, sp.S)
+		}
+		queries := [][]string{{"(assert (not (or " + strings.Join(cases, " ") + ")))"}}
+		for _, c := range cases {
+			queries = append(queries, []string{"(assert " + c + ")"})
+		}
+		solver := ""
+		for _, q := range queries {
+			r := w.ask(&workerReq{SMT: e.smtWith(o, q), Timeout: timeout})
+			v.Time += r.Secs
+			if r.Status == "sat" && len(q) == 1 && q[0] != queries[0][0] {
+				v.Status, v.Model, v.Raw, v.Solver = "refuted", r.Out, r.Out, r.Solver
+				return v
+			}
+			if r.Status != "unsat" {
+				all = false
+				v.Raw += r.Raw
+				break
+			}
+			solver = r.Solver
+		}
+		if all {
+			v.Status, v.Solver = "discharged", solver+"+case-split"
+			return v
+		}
+		if first < timeout {
+			r := w.ask(&workerReq{SMT: smt, Timeout: timeout})
+			v.Time += r.Secs
+			if r.Status == "unsat" {
+				v.Status, v.Solver = "discharged", r.Solver
+				return v
+			}
+			if r.Status == "sat" {
+				v.Status, v.Model, v.Raw, v.Solver = "refuted", r.Out, r.Out, r.Solver
+				return v
+			}
+		}
+	}
+	v.Status = "undecided"
 	return v
 }
 
